@@ -345,6 +345,7 @@ def run(ctx):
 
     # ------------------------------------------------ the witnesses of the _refuted theorems, on the implementation
     probe_refutations(ctx, stats)
+    probe_column_orders(ctx, stats)
 
     # ------------------------------------------------ matches_headers on its own
     if m:
@@ -428,6 +429,45 @@ def _refutation_witnesses():
          {"k": "q", "s": {"f": True, "a": ""}}),
         ("packing_limit", m4, {"l": [{"x": "q"}]}, ["l"], None, None),
     ]
+
+
+def probe_column_orders(ctx, stats):
+    """The instances of Row/OrderFacts.v on the real RowParser: the example row with its columns
+    shuffled (each list's columns by increasing index) reads back as the instance; with u.2
+    before u.1 parse_row fails (AssertionError of find_entry), as the _refuted theorem says."""
+    from rowlib import STR, INT, FLOAT, BOOL, ULIST, REQUIRED
+    sub = ("model", "Sub", [("x", STR, ""), ("y", INT, 0)], {}, {})
+    ty = ("model", "M", [("a", STR, ""), ("b", ("list", STR), []), ("c", sub, REQUIRED), ("d", ("list", sub), []),
+                         ("e", FLOAT, 0.0), ("g", BOOL, True), ("u", ULIST, []), ("r", ("list", ("list", STR)), [])],
+          {"hdr": "r"}, {"r": "hdr"})
+    val = {"a": "h|i;\\", "b": ["1", "; 2", "\u00e9a"], "c": {"x": "q", "y": -5},
+           "d": [{"x": "q", "y": 0}, {"x": "", "y": 7}], "e": -2.25, "g": False, "u": ["x y", "a\nb"],
+           "r": [["k", "v"], ["z"]]}
+    T = ["b", "d.*"]
+    rowlib.clear_cache()
+    ctx.v.coverage["evaluations"] += 2
+    try:
+        parser, inst, un, back = impl_case(ty, val, T, [])
+    except Exception as e:
+        ctx.disagree("column-order witness could not be built", "ex", "theorem", repr(e))
+        return
+    if un[0] != "ok" or back[0] != "ok" or not _deep_eq(back[1], val):
+        ctx.disagree("column-order witness: canonical order", "ex", val, (un, back))
+        return
+    cells = dict(un[1])
+    order_ok = ["hdr", "c.y", "d.1", "u.1", "a", "d.2", "g", "c.x", "u.2", "e", "b"]
+    order_bad = ["a", "b", "c.x", "c.y", "d.1", "d.2", "e", "g", "u.2", "u.1", "hdr"]
+    if sorted(order_ok) != sorted(cells) or sorted(order_bad) != sorted(cells):
+        ctx.disagree("column-order witness: headers", "ex", sorted(order_ok), sorted(cells))
+        return
+    good = impl_parse(parser, [(k, cells[k]) for k in order_ok])
+    stats["column_order_witnesses"] = 2
+    if good[0] != "ok" or not _deep_eq(good[1], val):
+        ctx.v.failing_input("column-order", f"shuffled columns {order_ok} of {cells} read back as {good!r}, not {val!r}",
+                            dict(fn="order", order=order_ok))
+    bad = impl_parse(parser, [(k, cells[k]) for k in order_bad])
+    if bad[0] == "ok":
+        ctx.disagree("column-order witness: the theorem says parse_row fails for u.2 before u.1", "ex", "Err EAssert", bad)
 
 
 def probe_refutations(ctx, stats):
@@ -715,6 +755,21 @@ def replay(rep):
     from rpft.parsers.sheets import CSVSheetReader, XLSXSheetReader
 
     r = rep["replay"]
+    if r["fn"] == "order":
+        class _V:
+            coverage = {"evaluations": 0}
+            def failing_input(self, key, summary, replay):
+                print(summary)
+                self.bad = True
+        class _C:
+            v = _V()
+            def disagree(self, *a):
+                print("disagree:", a)
+                self.v.bad = True
+        c = _C()
+        c.v.bad = False
+        probe_column_orders(c, {})
+        return not c.v.bad
     if r["fn"] == "generic":
         t = _ty_from_json(r["ty"])
         parser, inst, un, back = impl_case(t, r["value"], r["targets"], r["excluded"])
